@@ -172,6 +172,46 @@ pub fn run(env: &Env, run: &Run) -> (Stats, Coverage) {
             st.merge(s);
         }
     }
+    // case variants: every string of length <= 3 over letters in both cases and the characters whose
+    // context rules look at the case-sensitive neighbours, against every other such string - a valid
+    // label next to its own invalid variant, in both orders, through instance and static API
+    {
+        let cv: Vec<char> = [0x6Cu32, 0x4C, 0xB7, 0x61, 0x41, 0x3B1, 0x391, 0x375, 0xE9, 0xC9].iter().map(|c| char::from_u32(*c).unwrap()).collect();
+        let cs = strings(&cv, 3);
+        for p in Prof::ALL {
+            let canons: Vec<Expect> = cs.par_iter().map(|s| canon(env, p, s)).collect();
+            let shards: Vec<Stats> = (0..cs.len())
+                .into_par_iter()
+                .map(|i| {
+                    let mut st = Stats::default();
+                    st.states += 1;
+                    for j in 0..cs.len() {
+                        // only pairs that are equal up to case folding are interesting here
+                        if cs[i].to_lowercase() != cs[j].to_lowercase() {
+                            continue;
+                        }
+                        st.transitions += 1;
+                        check_pair(p, &cs[i], &cs[j], &canons[i], &canons[j], &mut st);
+                        let got = crate::subject::compare_static(p, &cs[i], &cs[j]);
+                        st.evaluations += 1;
+                        let exp = expected(&canons[i], &canons[j]);
+                        if !exp.contains(&got) {
+                            st.violation(
+                                "static_compare",
+                                || Case::new("compare_static").s(&cs[i]).s(&cs[j]).x(json!(p.name())),
+                                exp.iter().map(show_outb).collect::<Vec<_>>().join(" or "),
+                                show_outb(&got),
+                            );
+                        }
+                    }
+                    st
+                })
+                .collect();
+            for x in shards {
+                st.merge(x);
+            }
+        }
+    }
     // canonically equivalent spellings of every decomposable character, next to its own base
     // character: all ordered pairs within each group
     {
@@ -295,7 +335,7 @@ pub fn run(env: &Env, run: &Run) -> (Stats, Coverage) {
     st.sample(json!({"profile": "UsernameCaseMapped", "a": ["U+0009"], "b": ["U+0378"], "expected": "Err(BadCodepoint{0x9,0,Disallowed}) - the first operand's error"}));
     st.sample(json!({"profile": "OpaqueString", "a": ["e", "U+0301"], "b": ["U+00E9"], "expected": "Ok(true)"}));
     let cov = Coverage {
-        rule: format!("all ordered pairs of the {} strings of length <= {} over 25 symbols (plus all strings one longer over the first 12 (quick) / 8 (thorough) interaction symbols) (case, width, spacing, canonical and compatibility variants of the same names, invalid strings) x 4 profiles, plus all ordered pairs of a, A, U+00E9, U+65E5 each repeated k times for k around 2^7, 2^8, 2^9, 2^10, 2^16 (length layer), plus all ordered pairs of the canonically equivalent spellings of every decomposable character in 4 contexts, plus, for every string, all ordered pairs of its sub-slices presented as two slices of ONE buffer (aliased operands: shared start, shared end, overlapping, identical); oracle: usernames/OpaqueString = the implementation's own enforce on each operand (first operand's error first), Nickname = reference comparison pipeline (validate, space rule, lowercase, NFKC, iterated per RFC 8264 s.7); reflexivity/symmetry/transitivity checked directly on the first {} strings (all triples); non-trivial = distinct strings that compare equal", strs.len(), n, strs.len().min(run.tier.pick(150, 400))),
+        rule: format!("all ordered pairs of the {} strings of length <= {} over 25 symbols (plus all strings one longer over the first 12 (quick) / 8 (thorough) interaction symbols) (case, width, spacing, canonical and compatibility variants of the same names, invalid strings) x 4 profiles, plus all ordered pairs of a, A, U+00E9, U+65E5 each repeated k times for k around 2^7, 2^8, 2^9, 2^10, 2^16 (length layer), plus all pairs equal up to case folding among the strings of length <= 3 over 10 case-sensitive symbols (instance and static API), plus all ordered pairs of the canonically equivalent spellings of every decomposable character in 4 contexts, plus, for every string, all ordered pairs of its sub-slices presented as two slices of ONE buffer (aliased operands: shared start, shared end, overlapping, identical); oracle: usernames/OpaqueString = the implementation's own enforce on each operand (first operand's error first), Nickname = reference comparison pipeline (validate, space rule, lowercase, NFKC, iterated per RFC 8264 s.7); reflexivity/symmetry/transitivity checked directly on the first {} strings (all triples); non-trivial = distinct strings that compare equal", strs.len(), n, strs.len().min(run.tier.pick(150, 400))),
         alphabet: json!(sigma.iter().map(|c| format!("U+{:04X}", *c as u32)).collect::<Vec<_>>()),
         bound_completed: format!("{} strings, {} ordered pairs x 4 profiles", strs.len(), strs.len() * strs.len()),
         exhaustive: false,
@@ -315,6 +355,14 @@ pub fn replay(env: &Env, case: &Case) -> Vec<Violation> {
         "compare" => {
             let (a, b) = (case.str_at(0), case.str_at(1));
             check_pair(p, &a, &b, &canon(env, p, &a), &canon(env, p, &b), &mut st);
+        }
+        "compare_static" => {
+            let (a, b) = (case.str_at(0), case.str_at(1));
+            let got = crate::subject::compare_static(p, &a, &b);
+            let exp = expected(&canon(env, p, &a), &canon(env, p, &b));
+            if !exp.contains(&got) {
+                st.violation("static_compare", || case.clone(), exp.iter().map(show_outb).collect::<Vec<_>>().join(" or "), show_outb(&got));
+            }
         }
         "compare_aliased" if case.nums.len() == 4 => {
             let w = case.str_at(0);
